@@ -111,9 +111,12 @@ def read_from_isoform(rng, feats, delta, micro=False):
     return out or [e[0]]
 
 
-def pipeline_case(rng, quick, micro=False):
+def pipeline_case(rng, quick, micro=False, split=False):
     """one in-process 'chromosome': several GeneInfo loads (the same gene may be loaded several times, as the real
-    pipeline does once per read cluster) and reads assigned to a load"""
+    pipeline does once per read cluster) and reads assigned to a load.
+    split=True: a read cluster is cut into two sub-regions at a random position (AlignmentCollector.split_coverage_regions);
+    each sub-region loads only the genes overlapping IT, a read overlapping both sub-regions is processed in one of them:
+    the same annotated feature is then described by gene infos built from different gene subsets"""
     d = rng.choice([0, 4, 6, 12, 1, 2]) if not micro else rng.choice([1, 2, 4])
     ann = genome_annotation(rng, micro)
     gids = sorted({t["gene"] for t in ann})
@@ -135,17 +138,30 @@ def pipeline_case(rng, quick, micro=False):
             polyt = rng.choice([-1, -1, -1, blocks[0][0]])
             cluster.append({"gene": li, "blocks": blocks, "polya": polya, "polyt": polyt, "group": rng.choice(groups)})
         region = (min(r["blocks"][0][0] for r in cluster), max(r["blocks"][-1][1] for r in cluster))
-        loaded = [g for g in gids if not (grange[g][1] < region[0] or region[1] < grange[g][0])]
-        if not loaded:
-            continue
-        for r in cluster:
-            r["gene"] = len(loads)
-        loads.append([t for t in ann if t["gene"] in loaded])
-        reads += cluster
+        subregions = [(region, cluster)]
+        if split and region[1] - region[0] > 10:
+            cut = rng.randint(region[0] + 1, region[1] - 1)
+            left, right = (region[0], cut), (cut + 1, region[1])
+            parts = {left: [], right: []}
+            for r in cluster:
+                inl = r["blocks"][0][0] <= cut
+                inr = r["blocks"][-1][1] > cut
+                # a read overlapping both sub-regions is processed in both, the resolver keeps one of the equal records
+                parts[left if (inl and not inr) or (inl and inr and rng.random() < 0.5) else right].append(r)
+            subregions = [(reg, rs) for reg, rs in parts.items() if rs]
+        for reg, rs in subregions:
+            loaded = [g for g in gids if not (grange[g][1] < reg[0] or reg[1] < grange[g][0])]
+            if not loaded:
+                continue
+            for r in rs:
+                r["gene"] = len(loads)
+            loads.append([t for t in ann if t["gene"] in loaded])
+            reads += rs
     if not loads:
         loads.append(list(ann))
+    reads = [r for r in reads if r["gene"] < len(loads) and isinstance(r["gene"], int)]
     return {"chr": "chr1", "d": d, "abs_d": rng.choice([20, 20, 1, 5]), "default_group": "NA", "loads": loads, "reads": reads,
-            "annotation": ann}
+            "annotation": ann, "split": bool(split)}
 
 
 def profile_cases(rng, quick):
@@ -193,12 +209,16 @@ def history_case(rng, quick, malformed=False):
     coords = [(rng.choice(["chr1", "chr2"]), s, s + rng.randint(0, 3), rng.choice(["+", "-", "+-"])) for s in range(1, rng.randint(3, 9))]
     pmaps = []
     nid = 1
+    relabel = rng.random() < 0.5      # the same feature described by gene infos built from different gene subsets
     for _ in range(rng.randint(1, 4)):
         sub = [c for c in coords if rng.random() < 0.8] or coords[:1]
         pm = []
         for (c, s, e, st) in sub:
-            genes = sorted(rng.sample(["g1", "g2", "g3"], rng.randint(1, 2)))
-            pm.append({"id": nid, "chr": c, "start": s, "end": e, "strand": st, "type": rng.choice(["X", "IU", "TSC", "IM"]),
+            genes = sorted(rng.sample(["g1", "g2", "g3", "G10", "g"], rng.randint(1, 2)))
+            if relabel and rng.random() < 0.5:
+                st = rng.choice(["+", "-", "+-", ".", "+.", "-."])
+            pm.append({"id": nid, "chr": c, "start": s, "end": e, "strand": st,
+                       "type": rng.choice(["X", "IU", "TSC", "IM", "XU", "XM", "T", "I", "TSM", "ICU", "XSCU", "TU"]),
                        "genes": genes})
             nid += 1
         pmaps.append(pm)
@@ -213,3 +233,34 @@ def history_case(rng, quick, malformed=False):
         events.append({"profile": [rng.choice([1, 1, -1, -1, 0, -2]) for _ in range(n)], "pmap": pi,
                        "group": rng.choice(["A", "B", "NA", "zz", "a"])})
     return {"pmaps": pmaps, "events": events, "default_group": "NA"}
+
+
+FLAG_STRINGS = [b + sflag + c + m for b in "XTI" for sflag in ("", "S") for c in ("", "C") for m in ("", "U", "M")]
+
+
+def label_pairs(rng, quick):
+    """pairs of FeatureInfo descriptions of one feature (FeatureInfo.merge): well-formed flag strings, sorted gene lists,
+    strand strings over + - . ; plus a malformed stream (empty / unknown flags, unsorted genes, repeated characters)"""
+    res = []
+    genes_all = ["g1", "g2", "G10", "g", "gA", "gB", "ENSG01.2"]
+    strands = ["+", "-", ".", "+-", "+.", "-.", "+-."]
+    for i in range(300 if quick else 3000):
+        labs = []
+        for _ in range(2):
+            if i % 9 == 0:
+                labs.append({"strand": rng.choice(strands + ["", "-+", "++", "x"]),
+                             "type": rng.choice(FLAG_STRINGS + ["", "S", "UM", "Q", "MX", "XX"]),
+                             "genes": [rng.choice(genes_all) for _ in range(rng.randint(0, 3))]})
+            else:
+                g = sorted(rng.sample(genes_all, rng.randint(1, 3)))
+                t = rng.choice(FLAG_STRINGS)
+                if len(g) > 1:
+                    t = t.rstrip("UM") + "M"
+                else:
+                    t = t.rstrip("M")
+                labs.append({"strand": rng.choice(strands), "type": t, "genes": g})
+        if rng.random() < 0.15:
+            labs[1] = dict(labs[0])
+        s = rng.randint(1, 10 ** 6)
+        res.append(tuple(dict(l, id=j + 1, chr="chr1", start=s, end=s + 10) for j, l in enumerate(labs)))
+    return res
